@@ -24,6 +24,7 @@ package main
 //     own standard library, shipped as the q_lower oracle like for every other query.
 
 import (
+	"fmt"
 	"reflect"
 	"strings"
 	"sync"
@@ -308,4 +309,24 @@ func c19GenR6(r *RNG, tier string) []C19Spec {
 		}
 	}
 	return out
+}
+
+// A registered decoration as the Coq side gets it: the string fields themselves; Model/DecorCells.v's
+// [abstract] decides there - from the fields, not from a flag set here - whether it is the zero value.
+func c19DecCoq(nt *nameTable, id int) string {
+	if id <= 0 || id >= len(regPalette) {
+		return cqDec(id)
+	}
+	v := reflect.ValueOf(regPalette[id])
+	var fs []string
+	for i := 0; i < v.NumField(); i++ {
+		if f := v.Field(i); f.Kind() == reflect.String {
+			if f.Len() == 0 {
+				fs = append(fs, "[]")
+			} else {
+				fs = append(fs, nt.ref(f.String()))
+			}
+		}
+	}
+	return fmt.Sprintf("(abstract %d%%N (mkCD %s))", id, cqList(fs))
 }
